@@ -45,6 +45,10 @@ def snap(x, _depth=0):
         return ("ndarray", _h(x))
     if type(x).__name__ == "Grid" and hasattr(x, "axes"):
         return snap_grid(x)
+    if type(x).__name__ == "GridUFunc" and hasattr(x, "signature"):
+        # the options bound at definition time are state too: a call must not change them
+        return ("GridUFunc", str(x.signature), snap(x.boundary_width), snap(x.boundary), snap(x.fill_value), repr(x.dask),
+                repr(x.map_overlap), repr(x.pad_before_func))
     return ("value", repr(x))
 
 
